@@ -7,7 +7,7 @@
            witness run (reachable state with a data race) for every one of them.
    Only statements closed by `exact` (or a vm_compute) + Print Assumptions live here. *)
 From Coq Require Import String.
-From Coq Require Import List Bool Arith PeanoNat.
+From Coq Require Import List Bool Arith PeanoNat Permutation.
 From LH Require Import Model.Dispatch Proofs.DispatchProofs Proofs.DispatchSerial Generated.GenHandlers Tie.TieHandlers.
 Import ListNotations.
 Local Open Scope string_scope.
@@ -107,10 +107,10 @@ Proof.
 Qed.
 Print Assumptions C10_serialisable.
 
-(* The plan's hypothesis was the discipline alone. That is not enough: a handler with TWO critical sections keeps the
-   discipline but is not atomic (another message can run between the sections), so the statement below is the full
-   one and it is not provable as it stands; the proved theorem restricts it to the simple shape, and
-   C10_only_known_split (Part B) pins the one handler of the real table that has two sections. *)
+(* The plan's hypothesis was the discipline alone. That is NOT enough: a handler with TWO critical sections keeps the
+   discipline but is not atomic (another message can run between the sections). The full statement below is therefore
+   false - refuted by C10_discipline_alone_not_serialisable with a lost-update run; the proved theorem restricts it
+   to the simple shape, and C10_only_known_split (Part B) pins the one handler of the real table with two sections. *)
 Definition C10_serialisable_full : Prop :=
   forall (hs bgs : list handler) (conc : nat) (St Loc : Type)
          (exec : nat -> nat -> Loc -> St -> Loc * St) (loc0 : nat -> Loc)
@@ -120,8 +120,18 @@ Definition C10_serialisable_full : Prop :=
       drun hs bgs conc St Loc exec loc0 ls (dinit St Loc msgs sh0) = Some (s, sh, locs) ->
       complete s = true ->
       exists order res,
+        Permutation order (seq 0 (length msgs)) /\
         serialL St Loc exec loc0 (bodies_of (s_pool s)) order sh0 = (sh, res) /\
         (forall k lc, In (k, lc) res -> nth_error locs k = Some lc).
+
+Theorem C10_discipline_alone_not_serialisable : ~ C10_serialisable_full.
+Proof.
+  intros H. destruct cx_refutes as (s & sh & locs & Hrun & Hc & Hno).
+  destruct (H cx_hs [] 4 nat nat cx_exec (fun _ => 0) cx_msgs 0 cx_locked cx_labels s sh locs Hrun Hc)
+    as (order & res & Hp & Hs & _).
+  apply (Hno order Hp). rewrite Hs. reflexivity.
+Qed.
+Print Assumptions C10_discipline_alone_not_serialisable.
 
 (* ======================================================================= Part B: the table of this source tree *)
 
@@ -131,16 +141,13 @@ Print Assumptions C10_table_bracketed.
 
 (* ---- the three tree-dependent constants (the ONLY lines to edit when the source tree is repaired) ---- *)
 (* handlers that touch shared state without holding requestMutex, in handler-map order *)
-Definition known_unlocked : list name := map nm
-  [ "initialize"; "initialized"; "textDocument/hover"; "textDocument/references"; "textDocument/documentSymbol";
-    "textDocument/rename"; "textDocument/documentColor"; "completionItem/resolve";
-    "workspace/didChangeConfiguration"; "workspace/didChangeWorkspaceFolders"; "workspace/symbol";
-    "luahelper/getVarColor"; "luahelper/getOnlineReq" ].
+Definition known_unlocked : list name := map nm [ "luahelper/getOnlineReq" ].
 (* handlers whose work is split over several critical sections (not atomic as a whole) *)
-Definition known_split : list name := map nm [ "workspace/didChangeWorkspaceFolders" ].
+Definition known_split : list name := map nm [].
 (* goroutines started by handlers that touch shared state without the mutex (telemetry) *)
 Definition known_bg_unlocked : list name := map nm [ "$go/handleRecv"; "$go/UDPReportOnline" ].
-(* AFTER the planned fixes (work/fixes/C10-take-mutex.diff, C10-telemetry-sync.diff) set all three to `map nm []`
+(* The fix: commit 1b70b29 (work/fixes/C10-take-mutex.diff) is applied: only the telemetry sites remain.
+   AFTER the remaining planned fix (C10-telemetry-sync.diff) set all three to `map nm []`
    (with only the first diff: known_unlocked := map nm ["luahelper/getOnlineReq"], the other two as they are except
    known_split := map nm []).  Nothing else in the Coq development changes: the model is generic in the table;
    C10_handlers_locked then reads `forallb locked handlers = true`, the refutation theorems become vacuous, and
